@@ -771,7 +771,9 @@ def matrix_inverse_pth_root(
   matrix_size = matrix.shape[0]
   orig_dtype = matrix.dtype
   matrix = matrix.astype(_MAT_INV_PTH_ROOT_DTYPE)
-  alpha = jnp.asarray(-1.0 / p, _MAT_INV_PTH_ROOT_DTYPE)
+  # Take the reciprocal in the compute dtype: with a traced int32 exponent
+  # `-1.0 / p` is evaluated in float32 even under jax_enable_x64.
+  alpha = -1.0 / jnp.asarray(p, _MAT_INV_PTH_ROOT_DTYPE)
   identity = jnp.eye(matrix_size, dtype=_MAT_INV_PTH_ROOT_DTYPE)
 
   if padding_start is not None:
@@ -871,7 +873,7 @@ def matrix_inverse_pth_root(
       z = (1 + p) / (2 * jnp.linalg.norm(damped_matrix))
       new_mat_m_0 = damped_matrix * z
       new_error = jnp.max(jnp.abs(new_mat_m_0 - identity))
-      new_mat_h_0 = identity * jnp.power(z, 1.0 / p)
+      new_mat_h_0 = identity * jnp.power(z, -alpha)
       init_state = tuple(
           [0, new_mat_m_0, new_mat_h_0, new_mat_h_0, new_error, 1.0])
       iters, mat_m, mat_h, old_mat_h, error, error_ratio = lax.while_loop(
@@ -985,7 +987,9 @@ def matrix_inverse_pth_root_eigh(
   matrix_size = matrix.shape[0]
   orig_dtype = matrix.dtype
   matrix = matrix.astype(_MAT_INV_PTH_ROOT_DTYPE)
-  alpha = jnp.asarray(-1.0 / p, _MAT_INV_PTH_ROOT_DTYPE)
+  # Take the reciprocal in the compute dtype: with a traced int32 exponent
+  # `-1.0 / p` is evaluated in float32 even under jax_enable_x64.
+  alpha = -1.0 / jnp.asarray(p, _MAT_INV_PTH_ROOT_DTYPE)
   identity = jnp.eye(matrix_size, dtype=_MAT_INV_PTH_ROOT_DTYPE)
   if padding_start is not None:
     ix = (jnp.arange(matrix_size, dtype=jnp.int32) < padding_start).astype(
@@ -1054,7 +1058,9 @@ def _low_rank_root(
       "all layers are too small for compression_rank")
   orig_dtype = matrix.dtype
   matrix = matrix.astype(_MAT_INV_PTH_ROOT_DTYPE)
-  alpha = jnp.asarray(-1.0 / p, _MAT_INV_PTH_ROOT_DTYPE)
+  # Take the reciprocal in the compute dtype: with a traced int32 exponent
+  # `-1.0 / p` is evaluated in float32 even under jax_enable_x64.
+  alpha = -1.0 / jnp.asarray(p, _MAT_INV_PTH_ROOT_DTYPE)
   identity = jnp.eye(matrix_size, dtype=_MAT_INV_PTH_ROOT_DTYPE)
   if padding_start is not None:
     ix = (jnp.arange(matrix_size, dtype=jnp.int32) < padding_start).astype(
